@@ -9,6 +9,7 @@ message that does not render) -> known findings, evidence.
 
 The model is evaluated inside Coq only (no OCaml extraction); the direct search needs no model."""
 import json
+import os
 import sys
 import time
 
@@ -155,13 +156,41 @@ FIXED = ["", " ", "a", "a/", "/", "//", "self::node()[1]/", "last()", "a]", "a[1
 # ------------------------------------------------------------------------------------------------
 # the implementation
 
+PARSE_BUDGET = 5            # seconds one parse() may take in this process before it counts as not terminating
+
+
+def budget_for(s):
+    """grouping is quadratic in the nesting depth, so the very long nested inputs of the overflow cases get more time"""
+    return PARSE_BUDGET + len(s) / 50.0
+
+
+class ParseTimeout(BaseException):
+    pass
+
+
+def _alarm(signum, frame):
+    raise ParseTimeout()
+
+
 def real_outcome(s, fresh=True):
-    """('ok', enc_ast) | ('xpe', position, unsupported, message, str(e), problems) | ('crash', type name)"""
+    """('ok', enc_ast) | ('xpe', position, unsupported, message, str(e), problems) | ('crash', type name)
+    | ('timeout',)  -- the call did not return within PARSE_BUDGET seconds (SIGALRM; the regex engine and the
+    interpreter both poll for signals, and the inputs most likely to hang are first run in a child process
+    by termination_probe, which cannot hang this process)"""
+    import signal
     if fresh:
         rparse.cache_clear()
         rtokenize.cache_clear()
+    old = signal.signal(signal.SIGALRM, _alarm)
+    signal.setitimer(signal.ITIMER_REAL, budget_for(s))
     try:
-        ast = rparse(s)
+        try:
+            ast = rparse(s)
+        finally:
+            signal.setitimer(signal.ITIMER_REAL, 0)
+            signal.signal(signal.SIGALRM, old)
+    except ParseTimeout:
+        return ("timeout",)
     except XPathParsingError as e:
         problems = []
         try:
@@ -191,6 +220,8 @@ def real_outcome(s, fresh=True):
 
 
 def enc_real(r):
+    if r[0] == "timeout":
+        return [2, 98]
     if r[0] == "ok":
         return [0] + list(r[1])
     if r[0] == "xpe":
@@ -261,6 +292,9 @@ def check_cases(ctx, cases):
         case = {"expression": s if len(s) < 200 else s[:80] + "...(%d characters)" % len(s), "family": fam}
         if r[0] != "ok" or (len(r[1]) > 12):
             ctx.nontrivial_case(s)
+        if r[0] == "timeout":
+            judge(ctx, dict(case, expression=s), r)
+            continue
         if model is None:
             ctx.mismatch("model evaluation", {"case": case, "detail": "coqc failed on the case file"})
         elif model[:1] == [3]:
@@ -277,7 +311,10 @@ def check_cases(ctx, cases):
 
 def judge(ctx, case, r):
     """the property itself, on the implementation"""
-    if r[0] == "crash":
+    if r[0] == "timeout":
+        ctx.fail("parse(%r) did not terminate within %d s" % (case["expression"][:80], budget_for(case["expression"])),
+                 dict(case, timeout=True))
+    elif r[0] == "crash":
         ctx.fail("parse(%r) raises %s instead of XPathParsingError" % (case["expression"][:80], r[1]),
                  dict(case, exception=r[1]))
     elif r[0] == "xpe" and r[5]:
@@ -287,10 +324,15 @@ def judge(ctx, case, r):
 # ------------------------------------------------------------------------------------------------
 # cache half
 
-def eval_result(ast, root):
+# evaluation contexts: with and without the prefixes the pool's expressions use (an AST shared through the parse
+# cache must not remember anything about the mapping it was evaluated under before)
+NS_MAPPINGS = [None, {}, {"p": "urn:p"}, {"q": "urn:q"}, {"p": "urn:other"}, {"p": "urn:p", "q": "urn:q"}]
+
+
+def eval_result(ast, root, namespaces):
     """the node objects themselves (kept alive by the caller, so that identities can be compared)"""
     try:
-        return ("ok", list(ast.evaluate(root, Namespaces({"p": "urn:p"}))))
+        return ("ok", list(ast.evaluate(root, Namespaces(namespaces or {}))))
     except Exception as e:  # noqa: BLE001
         return ("exc", type(e).__name__)
 
@@ -350,7 +392,8 @@ def touch_cached_properties(ast_obj):
 def cache_half(ctx, n_histories, hist_len):
     docs = [impl.Document('<r xmlns:p="urn:p" k="v"><a k="v" j="1">x<b/>y</a><p:a/><a><c k="w"/></a><!--c--><?t d?></r>'),
             impl.Document("<a><a><a/></a>text<b k='1'/></a>")]
-    pool = VALID + [s for s in FIXED + REGRESSION if len(s) < 30]
+    pool = VALID + [s for s in FIXED + REGRESSION if len(s) < 30] + \
+        ["p:a", "p:*", "q:a", "*[@p:n]", "*[@p:n='2']", "a[@q:k]", "//p:a[@p:k and @j]", "p:a/q:b", "ancestor::p:*"]
     for _ in range(n_histories):
         rparse.cache_clear()
         rtokenize.cache_clear()
@@ -369,9 +412,9 @@ def cache_half(ctx, n_histories, hist_len):
                 elif op == "tokenize":
                     rtokenize(s)
                 elif op == "xpath":
-                    ctx.rng.choice(docs).root.xpath(s)
+                    ctx.rng.choice(docs).root.xpath(s, namespaces=ctx.rng.choice(NS_MAPPINGS))
                 elif op == "evaluate":
-                    list(rparse(s).evaluate(ctx.rng.choice(docs).root, Namespaces({})))
+                    list(rparse(s).evaluate(ctx.rng.choice(docs).root, Namespaces(ctx.rng.choice(NS_MAPPINGS) or {})))
                 elif op == "inspect":
                     touch_cached_properties(rparse(s))
                 elif op == "create":
@@ -426,18 +469,115 @@ def cache_half(ctx, n_histories, hist_len):
                 except Exception as e:  # noqa: BLE001
                     ctx.fail("comparing the cached with the fresh AST raises %s" % type(e).__name__,
                              dict(case, exception=type(e).__name__))
-                for d in docs:
-                    for node in (d.root, d.root[0]):
-                        with impl.no_gc():
-                            a, b = eval_result(c_ast, node), eval_result(f_ast, node)
-                            same = same_results(a, b)
-                        if not same:
-                            ctx.fail("cached and fresh expression evaluate differently", dict(case, cached=str(a)[:200],
-                                                                                              fresh=str(b)[:200]))
+                order = list(NS_MAPPINGS)
+                ctx.rng.shuffle(order)
+                for ns in order:                    # the same cached AST under one mapping after the other
+                    for d in docs:
+                        for node in (d.root, d.root[0]):
+                            with impl.no_gc():
+                                a, b = eval_result(c_ast, node, ns), eval_result(rparse.__wrapped__(s), node, ns)
+                                same = same_results(a, b)
+                            if not same:
+                                ctx.fail("cached and fresh expression evaluate differently",
+                                         dict(case, namespaces=ns, cached=str(a)[:200], fresh=str(b)[:200]))
         ctx.nontrivial_case(("cache", tuple(hist)))
 
 
 # ------------------------------------------------------------------------------------------------
+
+PROBE_CHILD = r"""
+import sys, time, json, signal
+from _delb.xpath import parse
+budget = float(sys.argv[1])
+class T(BaseException): pass
+def h(*a): raise T()
+signal.signal(signal.SIGALRM, h)
+for line in sys.stdin:
+    s = json.loads(line)
+    print(json.dumps({"start": s}), flush=True)
+    t = time.time()
+    signal.setitimer(signal.ITIMER_REAL, budget)
+    try:
+        try:
+            parse.__wrapped__(s)
+        finally:
+            signal.setitimer(signal.ITIMER_REAL, 0)
+        r = "returned"
+    except T:
+        r = "timeout"
+    except BaseException as e:
+        r = type(e).__name__
+    print(json.dumps({"done": r, "s": round(time.time() - t, 3)}), flush=True)
+"""
+
+
+def suspicious_inputs(rng, n):
+    """inputs on which a backtracking tokenizer is most likely to blow up: unterminated string literals followed by
+    20..40 further characters, truncations inside the string literals of valid expressions, runs of name / digit /
+    whitespace characters followed by a character that ends nothing"""
+    out = []
+    tails = ["a" * k for k in (20, 24, 28, 32, 36, 40)] + ["ab cd/ef[1]=2 and x or y(z)w"[:k] for k in (20, 28)] \
+        + ["x" * 15 + "\\" + "y" * 15, " " * 30, "1" * 30, "[" * 30, "a='" * 10, "é" * 30]
+    for q in ("'", '"'):
+        for t in tails:
+            out.append("a[@k=" + q + t)
+            out.append(q + t)
+            out.append("a[contains(@k," + q + t + ")]")
+    for v in VALID:
+        for q in ("'", '"'):
+            i = v.find(q)
+            if i >= 0:
+                out.append(v[:i + 1] + "b" * 30)
+                out.append(v[:i + 2] + "c" * 26 + v[i + 2:].replace(q, ""))
+    out += ["a" * 40 + "$", "1" * 40 + "$", " " * 40 + "$", "a" + ":" * 40, "a" + "." * 41, "/" * 41 + "$", "<=" * 20 + "!"]
+    while len(out) < n:
+        q = rng.choice("'\"")
+        out.append(rng.choice(VALID) + rng.choice(["[@k=", "[", "/", " "]) + q
+                   + "".join(rng.choice(["a", " ", "\\a", "=", "b]", "/", "1", "é"]) for _ in range(rng.randint(18, 40))))
+    return out[:n]
+
+
+def termination_probe(ctx, n):
+    """returns False when an input was found on which parse() does not come back in time (the caller then skips the
+    in-process phases that parse arbitrary strings).  The child is killed when it exceeds its overall budget, so
+    this cannot hang the check whatever the implementation does."""
+    import subprocess
+    inputs = suspicious_inputs(ctx.rng, n)
+    env = dict(os.environ, PYTHONPATH=common.REPO, PYTHONHASHSEED="0")
+    p = subprocess.Popen([common.PY, "-c", PROBE_CHILD, str(PARSE_BUDGET)], stdin=subprocess.PIPE, stdout=subprocess.PIPE,
+                         stderr=subprocess.DEVNULL, text=True, env=env)
+    overall = PARSE_BUDGET * 4 + 60
+    try:
+        out, _ = p.communicate("".join(json.dumps(s) + "\n" for s in inputs), timeout=overall)
+        killed = False
+    except subprocess.TimeoutExpired as e:
+        p.kill()
+        out = p.communicate()[0] or ""
+        killed = True
+    started, ok, slowest = None, True, 0.0
+    for line in out.splitlines():
+        try:
+            rec = json.loads(line)
+        except ValueError:
+            continue
+        if "start" in rec:
+            started = rec["start"]
+        else:
+            ctx.count(1, "termination/" + rec["done"])
+            slowest = max(slowest, rec.get("s", 0))
+            if rec["done"] == "timeout":
+                ok = False
+                ctx.fail("parse(%r) did not terminate within %d s" % (started[:80], PARSE_BUDGET),
+                         {"expression": started, "family": "termination", "timeout": True})
+                break
+            started = None
+    if killed and ok:
+        ok = False
+        ctx.fail("parse(%r) did not terminate (child process killed after %d s; SIGALRM had no effect)"
+                 % ((started or "?")[:80], overall), {"expression": started or "?", "family": "termination", "timeout": True})
+    ctx.notes.append("termination probe: %d inputs, slowest %.3f s" % (len(inputs), slowest))
+    return ok
+
 
 def direct_search(ctx, n):
     """the implementation alone, at volume"""
@@ -494,6 +634,10 @@ def run(ctx, args):
             continue
         seen.add(s)
         cases.append((fam, s))
+    if not termination_probe(ctx, 150 if quick else 600):
+        # parse() does not come back on some input: do not feed this process arbitrary strings
+        return ctx.finish("termination probe only (a parse did not terminate; the other phases were skipped)",
+                          replay_open=replay_open)
     check_cases(ctx, cases)
     cache_half(ctx, 40 if quick else 600, 120)
     direct_search(ctx, 40000 if quick else 1000000)
